@@ -68,6 +68,11 @@ CHECKS.update({
          'Generated-input exploration against independent decoding/verification; thousands (quick) to ~10^5 (thorough) certificates plus the complete shrink/boundary grid.',
          'Trusts pbt/pkt.py strict_cert, pycryptodome and stdlib datetime arithmetic.', '6/C16'),
 })
+CHECKS.update({
+ 'C20': ('Exhaustive enumeration of the presence/absence product (env x config files x keys x location kinds x default existence) plus Hypothesis-sampled config files / environment / transport URIs in a per-case sandbox tree; oracle: independent resolver written from the property text, default_face / default_keychain field checks',
+         'The configuration product is finite and enumerated completely in the thorough tier (every third combination in quick); values and file syntax are sampled.',
+         'Trusts the resolver in pbt/checks/c20_client_conf.py; Platform candidate-path methods are replaced on the singleton (plus one un-patched Linux pass).', '6/C20'),
+})
 NOT_YET = {}
 def main():
     props = [json.loads(l) for l in open(os.path.join(ROOT, 'properties.jsonl'))]
